@@ -48,13 +48,18 @@ type stmtRec struct {
 type handleKey struct{}
 
 type mdb struct {
-	tables    map[string]*mtable
-	stmts     []*stmtRec
-	onStmt    func(*stmtRec)         // observation hook (with the baton held)
-	failNext  func(*stmtRec) error   // fault injection: return an error for this statement
+	tables   map[string]*mtable
+	stmts    []*stmtRec
+	onStmt   func(*stmtRec)       // observation hook (with the baton held)
+	failNext func(*stmtRec) error // fault injection: return an error for this statement
 	// fault injection: the result set of this SELECT (n rows) breaks off after
 	// the returned number of rows with a driver error (< 0: it does not)
 	breakRows func(st *stmtRec, n int) int
+	// isolate: reads from a connection other than the one with the open
+	// transaction (txConn) see the table as it was when that transaction began
+	isolate bool
+	txConn  *mconn
+	reader  *mconn // the connection executing the current statement
 	afterExec func(*stmtRec, []mrow, []mrow) // (stmt, before images, after images) of committed writes
 	seqFn     func() uint64
 }
@@ -550,7 +555,11 @@ func (d *mdb) exec(st *stmtRec) (rows []mrow, affected int64, lastID int64, err 
 	var before, after []mrow
 	switch st.kind {
 	case "SELECT", "COUNT":
-		for _, r := range t.rows {
+		source := t.rows
+		if d.isolate && d.txConn != nil && d.reader != d.txConn {
+			source = d.txConn.snap[st.table]
+		}
+		for _, r := range source {
 			if st.where.eval(r) == 1 {
 				rows = append(rows, copyRow(r))
 			}
@@ -643,6 +652,9 @@ type mconn struct {
 
 func (c *mconn) begin() {
 	c.inTx = true
+	if c.d.isolate && c.d.txConn == nil {
+		c.d.txConn = c
+	}
 	c.snap = map[string][]mrow{}
 	for name, t := range c.d.tables {
 		for _, r := range t.rows {
@@ -661,9 +673,18 @@ func (c *mconn) BeginTx(ctx context.Context, _ driver.TxOptions) (driver.Tx, err
 
 type mtx struct{ c *mconn }
 
-func (t mtx) Commit() error { t.c.inTx = false; return nil }
+func (t mtx) Commit() error {
+	t.c.inTx = false
+	if t.c.d.txConn == t.c {
+		t.c.d.txConn = nil
+	}
+	return nil
+}
 func (t mtx) Rollback() error {
 	t.c.inTx = false
+	if t.c.d.txConn == t.c {
+		t.c.d.txConn = nil
+	}
 	for name, rows := range t.c.snap {
 		t.c.d.tables[name].rows = rows
 	}
@@ -697,6 +718,7 @@ func (c *mconn) run(ctx context.Context, q string, args []driver.NamedValue) (*s
 			return st, nil, 0, 0, err
 		}
 	}
+	c.d.reader = c
 	rows, aff, last, err := c.d.exec(st)
 	return st, rows, aff, last, err
 }
@@ -737,22 +759,47 @@ type mrows struct {
 	rows   []mrow
 	i      int
 	failAt int // >= 0: Next fails instead of delivering row failAt (or the end of the set)
+	bufs   map[int][]byte // per column: the reused read buffer for []byte values
 }
 
 // errRowStream is what a dropped connection looks like while rows stream in.
 var errRowStream = errors.New("SIM-row-stream-broken: connection reset while reading rows")
 
 func (r *mrows) Columns() []string { return r.cols }
-func (r *mrows) Close() error      { return nil }
+
+// Close: like go-sql-driver/mysql the driver owns the memory of the []byte
+// values it hands out and reuses it ("only valid until the next call to
+// Next"); whoever kept a reference sees it overwritten.
+func (r *mrows) Close() error {
+	r.scribble()
+	return nil
+}
+
+func (r *mrows) scribble() {
+	for _, b := range r.bufs {
+		for i := range b {
+			b[i] = '#'
+		}
+	}
+}
 func (r *mrows) Next(dest []driver.Value) error {
 	if r.failAt >= 0 && r.i >= r.failAt {
 		return errRowStream
 	}
 	if r.i >= len(r.rows) {
+		r.scribble()
 		return io.EOF
 	}
 	for j, c := range r.cols {
-		dest[j] = r.rows[r.i][c]
+		v := r.rows[r.i][c]
+		if b, ok := v.([]byte); ok {
+			if r.bufs == nil {
+				r.bufs = map[int][]byte{}
+			}
+			r.bufs[j] = append(r.bufs[j][:0], b...)
+			v = r.bufs[j]
+		}
+		dest[j] = v
 	}
 	r.i++
 	return nil
